@@ -91,13 +91,15 @@ def _check_netloc(netloc: str) -> None:
     # ignore characters already included
     # but not the surrounding text
     n = netloc.replace("@", "").replace(":", "").replace("#", "").replace("?", "")
+    n = n.replace("[", "").replace("]", "")
     normalized_netloc = unicodedata.normalize("NFKC", n)
     if n == normalized_netloc:
         return
     # Note that there are no unicode decompositions for the character '@' so
     # its currently impossible to have test coverage for this branch, however if the
     # one should be added in the future we want to make sure its still checked.
-    for c in "/?#@:":  # pragma: no branch
+    # a bracket that only appears after normalization would end up in the host
+    for c in "/?#@:[]":  # pragma: no branch
         if c in normalized_netloc:
             raise ValueError(
                 f"netloc '{netloc}' contains invalid "
